@@ -35,7 +35,7 @@ use std::num::NonZeroUsize;
 
 pub const META: Meta = Meta {
     level: "model_checking",
-    rule: "BFS over all histories of (a) confirm/expire over 3 addresses on ExternalAddresses, (b) new/expired listen address over 3 addresses on ListenAddresses, (c) NewExternalAddrOfPeer (3 plain addresses + one with matching /p2p + one with foreign /p2p), DialFailure(Transport over every subset of 3 addresses, Aborted, no peer) and get() over 2 peers on PeerAddresses::new(8), (d) the same over 3 peers x 2 addresses on PeerAddresses::new(2); states deduplicated on reference model + every getter. Scripted capacity families: 22 distinct confirmations with a refresh/expire inserted at every position; 12 addresses for one peer with a refresh inserted at every position. Non-trivial = states holding at least one address.",
+    rule: "BFS over all histories of (a) confirm/expire over 3 addresses on ExternalAddresses, (b) new/expired listen address over 3 addresses on ListenAddresses, (c) NewExternalAddrOfPeer (3 plain addresses + one with matching /p2p + one with foreign /p2p), DialFailure(Transport over every subset of 3 addresses; Transport error lists of length 0..2, and of length 3 containing a foreign-/p2p address, over {3 plain addresses, address with the peer's own /p2p, address with ANOTHER peer's /p2p, never-cached address} in every order; Aborted; no peer) and get() over 2 peers on PeerAddresses::new(8), (d) the same over 3 peers x 2 addresses on PeerAddresses::new(2); states deduplicated on reference model + every getter. Scripted capacity families: 22 distinct confirmations with a refresh/expire inserted at every position; 12 addresses for one peer with a refresh inserted at every position. Non-trivial = states holding at least one address.",
     explanation: "Every step's return value is compared with (set before != set after) of the reference model and every reached state getter-by-getter with the model (ExternalAddresses ordered, the others as sets); un-deduplicated DFS companion at smaller depth.",
     assumptions: &["3 addresses / 2-3 peers (small-scope hypothesis) + scripted capacity families", "PeerAddresses state is observed on a replica built by replaying the same history, because get() itself refreshes the LRU"],
 };
@@ -217,6 +217,10 @@ pub enum PAct {
     AddWithForeignP2p(u8),
     /// DialFailure{Some(peer), Transport(errors for the addresses in mask)}
     Fail(u8, u8),
+    /// DialFailure{Some(peer), Transport(list)}: each item is a plain address i (0..=2), 10 = address 0
+    /// with the peer's own /p2p suffix, 20 = address 0 with ANOTHER peer's /p2p suffix (does not
+    /// normalise for this peer), 30 = an address that is never cached
+    FailList(u8, Vec<u8>),
     /// DialFailure{Some(peer), Aborted}
     FailAborted(u8),
     /// DialFailure{None, Transport([address 0])}
@@ -240,11 +244,39 @@ struct PeerSys {
     peers: u8,
     addrs: u8,
     rich: bool,
+    /// offer the FailList actions (Transport error lists in every order)
+    lists: bool,
     hist: Vec<PAct>,
 }
 
 fn with_p2p(p: u8, m: Multiaddr) -> Option<Multiaddr> {
     m.with_p2p(peer(p)).ok()
+}
+
+fn fail_item(p: u8, item: u8) -> Multiaddr {
+    match item {
+        10 => with_p2p(p, a(0)).unwrap(),
+        20 => with_p2p(p + 100, a(0)).unwrap(),
+        30 => a(7),
+        i => a(i),
+    }
+}
+
+/// item alphabet of FailList and all lists of length 0..=2 plus those of length 3 that contain
+/// the foreign-/p2p item (the only item on which normalisation fails)
+fn fail_lists(addrs: u8) -> Vec<Vec<u8>> {
+    let mut items: Vec<u8> = (0..addrs).collect();
+    items.extend([10, 20, 30]);
+    let mut v = Vec::new();
+    for l in 0..=3 {
+        mc::enumerate::sequences(items.len(), l, |idx| {
+            let list: Vec<u8> = idx.iter().map(|&i| items[i]).collect();
+            if l < 3 || list.contains(&20) {
+                v.push(list);
+            }
+        });
+    }
+    v
 }
 
 fn apply_real(real: &mut PeerAddresses, act: &PAct) -> (Option<bool>, Option<Vec<Multiaddr>>) {
@@ -264,6 +296,18 @@ fn apply_real(real: &mut PeerAddresses, act: &PAct) -> (Option<bool>, Option<Vec
             let e = DialError::Transport(errs);
             (Some(real.on_swarm_event(&FromSwarm::DialFailure(DialFailure { peer_id: Some(peer(*p)), error: &e, connection_id: ConnectionId::new_unchecked(7) }))), None)
         }
+        PAct::FailList(p, list) => {
+            let errs: Vec<(Multiaddr, TransportError<std::io::Error>)> = list
+                .iter()
+                .map(|&it| {
+                    let m = fail_item(*p, it);
+                    let e = if it == 20 { TransportError::MultiaddrNotSupported(m.clone()) } else { TransportError::Other(std::io::Error::other("refused")) };
+                    (m, e)
+                })
+                .collect();
+            let e = DialError::Transport(errs);
+            (Some(real.on_swarm_event(&FromSwarm::DialFailure(DialFailure { peer_id: Some(peer(*p)), error: &e, connection_id: ConnectionId::new_unchecked(7) }))), None)
+        }
         PAct::FailAborted(p) => {
             let e = DialError::Aborted;
             (Some(real.on_swarm_event(&FromSwarm::DialFailure(DialFailure { peer_id: Some(peer(*p)), error: &e, connection_id: ConnectionId::new_unchecked(7) }))), None)
@@ -278,7 +322,7 @@ fn apply_real(real: &mut PeerAddresses, act: &PAct) -> (Option<bool>, Option<Vec
 
 impl PeerSys {
     fn new(cap: usize, peers: u8, addrs: u8, rich: bool) -> Self {
-        PeerSys { real: PeerAddresses::new(NonZeroUsize::new(cap).unwrap()), model: vec![], cap, peers, addrs, rich, hist: vec![] }
+        PeerSys { real: PeerAddresses::new(NonZeroUsize::new(cap).unwrap()), model: vec![], cap, peers, addrs, rich, lists: rich, hist: vec![] }
     }
     fn touch(&mut self, p: u8) -> Option<usize> {
         let pos = self.model.iter().position(|e| e.0 == p)?;
@@ -357,6 +401,11 @@ impl System for PeerSys {
                 for mask in 1..(1u8 << self.addrs) {
                     v.push(PAct::Fail(p, mask));
                 }
+                if self.lists {
+                    for l in fail_lists(self.addrs) {
+                        v.push(PAct::FailList(p, l));
+                    }
+                }
                 v.push(PAct::FailAborted(p));
             } else {
                 for i in 0..self.addrs {
@@ -384,6 +433,12 @@ impl System for PeerSys {
                     self.m_remove(*p, with_p2p(*p, a(i)));
                 }
             }
+            PAct::FailList(p, list) => {
+                // plain fold: every listed address that normalises for this peer is removed
+                for &it in list {
+                    self.m_remove(*p, fail_item(*p, it).with_p2p(peer(*p)).ok());
+                }
+            }
             PAct::FailAborted(_) | PAct::FailNoPeer => {}
             PAct::Get(p) => {
                 self.touch(*p);
@@ -407,6 +462,7 @@ impl System for PeerSys {
                 let kind = match act {
                     PAct::Add(..) | PAct::AddWithOwnP2p(_) | PAct::AddWithForeignP2p(_) => "new-addr",
                     PAct::Fail(..) => "dial-failure-transport",
+                    PAct::FailList(..) => "dial-failure-transport-list",
                     PAct::FailAborted(_) => "dial-failure-aborted",
                     PAct::FailNoPeer => "dial-failure-no-peer",
                     PAct::Get(_) => "get",
@@ -495,6 +551,11 @@ fn make_peer(cfg: &Value) -> PeerSys {
     match cfg["sys"].as_str() {
         Some("peer-cap2") => PeerSys::new(2, 3, 2, false),
         Some("peer12") => PeerSys::new(8, 1, 3, false),
+        Some("peer-nolists") => {
+            let mut s = PeerSys::new(8, 2, 3, true);
+            s.lists = false;
+            s
+        }
         _ => PeerSys::new(8, 2, 3, true),
     }
 }
@@ -542,7 +603,11 @@ pub fn run_into(ctx: &Ctx, out: &mut Outcome) {
     out.count("peer_states", st.states);
     bfs::record(out, &cfg, &st, &v);
     drain_soft(out, &cfg);
-    let (n, capped, v) = bfs::dfs_all(|| make_peer(&json!({"sys": "peer"})), d_dfs.min(3), 3_000_000);
+    // companion: all actions to depth 2, the actions without the error lists to depth 3
+    let (n, capped, v) = bfs::dfs_all(|| make_peer(&json!({"sys": "peer"})), 2, 3_000_000);
+    companion(out, &cfg, n, capped, v);
+    let cfg = json!({"sys": "peer-nolists"});
+    let (n, capped, v) = bfs::dfs_all(|| make_peer(&json!({"sys": "peer-nolists"})), d_dfs.min(3), 3_000_000);
     companion(out, &cfg, n, capped, v);
     // (d)
     let cfg = json!({"sys": "peer-cap2"});
